@@ -58,12 +58,18 @@ def parseOp : SExp → Option Op
 def encGroups (g : GroupsD) : SExp :=
   .list (g.map fun p => .list [.str p.1, .list (p.2.map .str)])
 
+def encGroupsSet (g : GroupsD) : SExp :=
+  tagged "set" (g.map fun p => .list [.str p.1, .list (p.2.map .str)])
+
+/-- table read-outs are compared as sets of items (`(set …)` is sorted by the harness); the dumps of
+the two dicts themselves keep their order -/
 def encOut : Out → SExp
   | .ok => .atom "ok"
   | .int v => tagged "int" [ofInt v]
   | .ints l => tagged "ints" (l.map ofInt)
-  | .groups g => tagged "groups" [encGroups g]
-  | .g2g t => tagged "g2g" [.list (t.map fun p => .list [.str p.1, .str p.2])]
+  | .groups g => tagged "groups" [encGroupsSet g]
+  | .dump g => tagged "dump" [encGroups g]
+  | .g2g t => tagged "g2g" [tagged "set" (t.map fun p => .list [.str p.1, .str p.2])]
   | .kern k => tagged "kern" [.list (k.map fun p => .list [.str p.1.1, .str p.1.2, ofInt p.2])]
   | .bools l => tagged "bools" (l.map ofBool)
   | .err e => err e
